@@ -90,6 +90,12 @@ LineConfident == /\ cur > 0
                  /\ llHas' = TRUE /\ llPage' = cur /\ llLine' = pos
                  /\ pos' = pos + 1 /\ UNCHANGED <<carry, cur>> /\ Keep
 
+\* a confident line without a transcription: no state and no text is held afterwards
+LineConfidentNoText == /\ cur > 0
+                       /\ hHas' = FALSE /\ HFree
+                       /\ llHas' = FALSE /\ LFree
+                       /\ pos' = pos + 1 /\ UNCHANGED <<carry, cur>> /\ Keep
+
 LineDecode == /\ cur > 0
               /\ fEmpty' = SEmpty /\ fAtPage' = cur /\ fAtLine' = pos
               /\ fMixed' \in BOOLEAN /\ fPage' \in Int /\ fMax' \in Int
@@ -114,7 +120,7 @@ PageEnd == /\ cur > 0
            /\ cur' = 0 /\ pos' \in Int
            /\ UNCHANGED <<carry, hHas, hEmpty, hPage, hMax, hMixed, llHas, llPage, llLine>> /\ Keep
 
-Next == PageStart \/ LineConfident \/ LineDecode \/ LineFail \/ PageEnd
+Next == PageStart \/ LineConfident \/ LineConfidentNoText \/ LineDecode \/ LineFail \/ PageEnd
 Spec == Init /\ [][Next]_vars
 
 \* C08: the context a line is decoded from holds only earlier lines of the same page
